@@ -47,6 +47,13 @@ Fixpoint views_with (cn : denom -> denom) (c : create_denoms) (s : st) (ops : li
   | o :: r => let s' := fst (step_with cn c s o) in view s' :: views_with cn c s' r
   end.
 
+(** … of the machine with re-entry guards [g] ([Model.step_rg]) *)
+Fixpoint views_rg (g : reentry_guards) (s : st) (ops : list op) : list (list mobs) :=
+  match ops with
+  | [] => []
+  | o :: r => let s' := fst (step_rg g s o) in view s' :: views_rg g s' r
+  end.
+
 (** * boolean checker *)
 Fixpoint nodupb {A} (eqb : A -> A -> bool) (l : list A) : bool :=
   match l with
